@@ -339,7 +339,7 @@ def mon_c15(k, domain, wildcard=False):
             continue
         h = proto.parse_down_header(p)
         body = p[2:]
-        nk = (tuple(ql), t)
+        nk = (tuple(labels), t)      # exact spelling: the answer cache compares names with strcmp()
         if nk in answered:
             # identical repeat of an already answered query name: served from the answer cache / to the
             # remembered duplicate (C16's business); its header is allowed to be stale
@@ -375,7 +375,16 @@ def mon_c15(k, domain, wildcard=False):
             if u.body is not None and not (body.startswith(u.body) or u.body.startswith(body)):
                 viol.append(("C15:resend-differs", "fragment %d/%d of session %d re-sent with different bytes"
                              % (h["dn_seq"], h["dn_frag"], tk[1]), {"time_us": ev[0]}))
-            continue
+                continue
+            if u.body is None or body == u.body or u.wrapped:
+                continue
+            # re-sent from the same offset with another length (the fragment size was changed in between): the
+            # server's position now advances by this version, so it replaces the earlier one in the stream and
+            # its last flag is judged again
+            stats["c15_resends_resized"] = stats.get("c15_resends_resized", 0) + 1
+            u.asm = u.asm[:len(u.asm) - len(u.body)] + body
+            u.body = body
+            u.done = False
         elif h["dn_frag"] == ((u.frag + 1) & 15):
             if u.done and not u.wrapped:
                 viol.append(("C15:fragment-after-last", "session %d: fragment %d follows the last-flagged fragment of packet seq %d"
